@@ -181,10 +181,16 @@ VCLAUSE(nested_2d_3d, 60, 3000, 60000, "at least one axis has reversed limits, o
 	std::string m = kMethods[mi];
 	int par = 0;
 	bool poly = false;
+	bool product_only = false;	 // small explicit order on a non-polynomial integrand: only "equals the product of the 1D integrals" is asserted
 	if(m == "Gauss-Legendre_2")
 	{
 		par	 = (int) s.range(4, three ? 8 : 30);
 		poly = par < 25;
+		if(poly && s.coin())
+		{
+			poly		 = false;
+			product_only = true;
+		}
 	}
 	if(m == "Gauss-Kronrod" && s.coin())
 		par = (int) s.range(1, 6);
@@ -275,7 +281,20 @@ VCLAUSE(nested_2d_3d, 60, 3000, 60000, "at least one axis has reversed limits, o
 		mag *= fabsl(exact1(k));
 	}
 	double rel = (m == "Trapezoidal") ? 1e-6 : (m == "Adaptive-Simpson" ? 1e-7 : 1e-9);
-	VCLOSE(c, three ? "separable_3d" : "separable_2d", v, (double) exact, nd * rel * (double) mag, (three ? "Integrate_3D" : "Integrate_2D") << " with " << m << " vs the product of the 1D integrals");
+	if(!product_only)
+		VCLOSE(c, three ? "separable_3d" : "separable_2d", v, (double) exact, nd * rel * (double) mag, (three ? "Integrate_3D" : "Integrate_2D") << " with " << m << " vs the product of the exact 1D integrals");
+	// for the fixed rules the nested integral of a separable integrand is the product of the same rule's 1D integrals up to rounding
+	if(m == "Gauss-Legendre" || m == "Gauss-Legendre_2")
+	{
+		long double prod = 1;
+		for(int k = 0; k < nd; k++)
+		{
+			double i1 = 0;
+			VMUST_RETURN("Integrate (1D factor)", i1 = libphysica::Integrate([&](double x) { return fac(k, x); }, L0[k], H0[k], m, par));
+			prod *= i1;
+		}
+		VCLOSE(c, "product_of_library_1d_integrals", v, (double) prod, 1e-12 * std::fabs((double) prod), (three ? "Integrate_3D" : "Integrate_2D") << " with " << m << " (parameter " << par << ") vs the product of the library's own 1D integrals with the same method and parameter");
+	}
 }
 
 VCLAUSE(spherical, 40, 1500, 30000, "an angular sub-range (not the full sphere) is integrated, or a limit pair is reversed")
